@@ -159,6 +159,8 @@ class Ex:
                 owner = e.get('of') or ('tuple' if e.get('tuple') else e.get('of_closure', '?'))
                 base = ('field', base, name, owner)
             elif 'downcast' in e:
+                if base[0] == 'agg' and base[1] == 'adt' and base[3] == e['downcast']:
+                    continue
                 base = ('downcast', base, e['downcast'])
             elif 'index' in e:
                 base = ('index', base, self.local(e['index'], depth))
@@ -241,6 +243,15 @@ class Ex:
             return canon(('bin', CMP_CALLS[last], args[0], args[1]))
         if len(args) == 2 and last in PRIM_OPS and re.match(r"^<&?'?[a-z_]*\s?(u|i)(8|16|32|64|128|size) as core::ops::(arith|bit)::", short):
             return canon(('bin', PRIM_OPS[last], args[0], args[1]))
+        if len(args) == 1 and isinstance(args[0], tuple) and args[0][0] == 'agg' and args[0][1] == 'adt' and args[0][2] in ('core::result::Result', 'core::option::Option'):
+            a = args[0]
+            CF = 'core::ops::control_flow::ControlFlow'
+            if gshort.endswith('::Try::branch') or short.endswith('as core::ops::try_trait::Try>::branch'):
+                if a[3] in ('Ok', 'Some'):
+                    return ('agg', 'adt', CF, 'Continue', (('0', dict(a[4]).get('0')),))
+                return ('agg', 'adt', CF, 'Break', (('0', a),))
+            if gshort.endswith('::FromResidual::from_residual') or short.endswith('>::from_residual'):
+                return a
         if gshort in MINMAX and len(args) == 2:
             return canon(('call', MINMAX[gshort], tuple(args)))
         return canon(('call', short, tuple(args)))
